@@ -1,39 +1,62 @@
 # Driver configuration for property C13 (read by /verif/checks_config.py)
 PROP = dict(
         pkg="c13", level="fault_enumeration",
-        technique=("crash-point enumeration over generated input scripts: the real driver.Driver + real tendermint state machine + real "
-                   "walstore run in a testing/synctest bubble (virtual time, deterministic schedule), are killed before/after every effect, "
-                   "restarted on the crash image (and killed again while recovering) and compared with driver-less reference state machines"),
+        technique=("stop-point enumeration over generated input scripts: the real driver.Driver + real tendermint state machine + real "
+                   "walstore run in a testing/synctest bubble (virtual time, deterministic schedule), are stopped at every effect - hard kill "
+                   "(crash image), orderly shutdown (context cancelled, Run returns, Close flushes), shutdown while the commit callback holds "
+                   "the hand-over, commit-listener failure - restarted on the resulting directory (and stopped again while recovering) and "
+                   "compared with driver-less reference state machines and the harness's own block store"),
         level_text=("Fault enumeration: for every generated script the uncrashed run's effects (log append, flush, prune, each broadcast, timer "
                     "arming, commit callback) are numbered and the run is repeated and killed before and after EVERY effect (thorough; quick: "
-                    "<= 10 drawn points per script, half of them non-trivial) and stopped in an orderly way before every script position; a new "
-                    "driver + state machine is started on the crash image at (last completed commit)+1 and fed the rest of the script, with "
-                    "delivered-but-not-durable inputs re-delivered or lost by draw; the recovering process is killed as well at a drawn effect "
-                    "(every experiment in the thorough tier, 30 % in quick) and recovered again. Oracles: no two different proposals/prevotes/"
+                    "<= 10 drawn points per script: one inside a commit callback when the script commits, four more non-trivial ones). Besides kills "
+                    "the same enumeration covers orderly stops, where the process lives on until Run has returned and Close() has flushed: the "
+                    "context is cancelled while the driver is idle (before every script position) or in the middle of a call (before every effect "
+                    "and after the last effect of every call; a commit callback entered with the cancelled context persists the block or not, both "
+                    "variants); the commit listener holds the hand-over and the shutdown arrives while the callback is blocked (OnCommit returns "
+                    "false, Run returns ctx.Err); the block writer reports a persist error (OnCommit returns false with a live context, Run returns "
+                    "an error by itself). The harness owns the block store: a block is persisted, and the commit of its height completed, exactly "
+                    "when OnCommit returned true. A new driver + state machine is started on the resulting directory at (persisted blocks)+1 and "
+                    "fed the rest of the script, with delivered-but-not-durable inputs re-delivered or lost by draw; the recovering process is "
+                    "stopped as well at a drawn effect (every experiment in the thorough tier, 30 % in quick; kill, shutdown, or inside a commit "
+                    "callback of the replay) and recovered again. Oracles: no two different proposals/prevotes/"
                     "precommits per (height, round) across all process lifetimes; no appended-but-unflushed input at any broadcast or commit; the "
-                    "log after restart = the flushed records; replay = exactly the flushed entries of unpruned heights in order; decisions during "
+                    "log after restart = the flushed records; no durable prune record for a height whose commit has not completed; replay = exactly "
+                    "the flushed entries of the heights whose commit has not completed, in order (independent of what the driver pruned); the commit "
+                    "callback is only called for (block store height)+1; Run returns an error only where the harness caused one; decisions during "
                     "replay = decisions taken when the same entries were first processed; a state machine rebuilt from the durable log answers a "
                     "probe battery like one that processed the same inputs uncrashed; the recovered driver's broadcasts/commits and final state = "
                     "those of a driver-less reference machine; commits consecutive from the resume height and equal to the uncrashed run's; a "
-                    "start record carries the started height. The crash space per script is enumerated exhaustively for the first kill; scripts "
-                    "and second kills are sampled, so absence of defects is shown for the enumerated (script, point) pairs only."),
+                    "start record carries the started height. The stop space per script is enumerated exhaustively for the first stop; scripts "
+                    "and second stops are sampled, so absence of defects is shown for the enumerated (script, point) pairs only."),
         rule=("TestPropCrashRecovery: drawn node index, proposer table, per-(height,step,round) timer table (fires 0-3 script positions after "
               "arming, or never), script for 1-3 heights of proposals/prevotes/precommits of the 3 other validators (agreeing, nil, split and "
               "polka-without-commit rounds, re-proposals with valid round, invalid values, duplicates, equivocation, overtaking future-round "
               "messages, next-height messages arriving early); application values fresh-per-call (70 %, redirected to reproducible values while "
               "c13-proposer-value-not-logged is listed) or reproducible; while c13-start-entry-aliases-height is listed the second non-nil "
-              "precommit for a height the node has not reached is delayed. Non-trivial = the kill lies between a Flush and the broadcast/commit "
-              "it covers, between OnCommit and the prune flush, while the node is proposer of its current round, or the second kill hits the "
-              "replay. Distinct = SHA-256 of script, tables and chosen points. info.crash-points counts process restarts checked. "
+              "precommit for a height the node has not reached is delayed. Stop points: kill before/after each effect; orderly shutdown while idle "
+              "(per script position) or mid-call (before each effect, after the last effect of each call); per commit callback a held hand-over "
+              "with the shutdown arriving meanwhile, and a persist error. Non-trivial = the kill lies between a Flush and the broadcast/commit "
+              "it covers, between OnCommit and the prune flush, the stop happens while the node is proposer of its current round, a shutdown is "
+              "requested with a commit callback still ahead in the same call, the stop is inside a commit callback (shutdown-inside-commit-"
+              "callback, failed-commit), or the second stop hits the replay. Distinct = SHA-256 of script, tables and chosen points (stop kind "
+              "included). info.crash-points counts process restarts checked; labels stop:kill / stop:graceful-idle / stop:graceful-mid-call / "
+              "stop:inside-commit-callback / stop:failed-commit (and second-stop:...) count cases, info.experiments-stop:... count experiments "
+              "per stop kind; stop-left-decided-block-unpersisted / unpersisted-height-committed-again-after-restart / run-returned-error show "
+              "that the stops inside the commit callback leave a decided but unpersisted height that is decided again from the log. "
               "TestRaceCrashRecovery: same body under -race (thorough tier). TestKnown...: deterministic witnesses of the two listed findings."),
         assumptions=["a kill loses exactly what walstore has not flushed: records appended with SetWALEntry live in process memory; a completed Flush is durable "
                      "and atomic (C14 checks torn/corrupted tails of the log file itself)",
-                     "the chain height after a restart is (last height whose OnCommit returned true); OnCommit is atomic (persisted or not)",
+                     "the chain height after a restart is (last height whose OnCommit returned true): the harness's commit listener IS the block store; "
+                     "OnCommit is atomic (persisted or not); a process killed right after OnCommit returned true has persisted the block",
+                     "an orderly stop is: context cancelled (or the commit listener returning false), Run returns, the driver's own deferred Close() "
+                     "runs to completion before the directory is reused; broadcasts the driver still hands to a broadcaster with a cancelled context "
+                     "count as sent; a commit callback entered with a cancelled context may or may not persist (both generated)",
+                     "the commit listener blocks only in the lifetime that is stopped inside it (a slow but eventually successful hand-over is not generated)",
                      "the other validators precommit a non-nil id only for the proposal of one designated round per height (so a height has one possible decision)",
                      "a third non-nil precommit for one (height, round, id) above the node's height is delayed until the node reaches that height "
                      "(the block-sync path needs a real p2p BlockFetcher and is out of scope)",
                      "the observing proxy in front of the state machine forwards every call unchanged; Application.Valid is a pure predicate that survives restarts",
                      "virtual time: a timer fires at the drawn script position; Go-runtime interleavings inside one bubble are those synctest produces",
-                     "at most two kills per experiment"],
+                     "at most two stops per experiment"],
         runs=[dict(run="^Test(Prop|Known)"), dict(run="^TestRace", race=True, thorough_only=True)],
     )
